@@ -719,14 +719,6 @@ def payload_for(rng, name):
     return bytes(pl)
 
 
-def fletcher(bs):
-    a = b = 0
-    for x in bs:
-        a = (a + x) & 0xff
-        b = (b + a) & 0xff
-    return bytes([a, b])
-
-
 def lookalike_payloads(rng, name):
     """well-formed payloads whose own bytes look like the layers around them: a complete wire frame of the message itself (sync, own
     class/id, a length field that fits, a checksum that is right), the start of one, an acknowledgement naming the message, an
@@ -754,7 +746,7 @@ def lookalike_payloads(rng, name):
         # a complete frame of the message itself
         pl = bytearray(base)
         pl[0:6] = bytes([0xb5, 0x62, c, i, (L - 8) & 0xff, (L - 8) >> 8])
-        pl[-2:] = fletcher(pl[2:-2])
+        pl[-2:] = bytes(fletcher(pl[2:-2]))
         out.append(bytes(pl))
         # … with a wrong checksum, and cut short: only the beginning looks like one
         pl2 = bytearray(pl)
@@ -763,7 +755,7 @@ def lookalike_payloads(rng, name):
         # an acknowledgement naming the message, then the rest
         pl3 = bytearray(base)
         ack = bytes([0xb5, 0x62, 5, 1, 2, 0, c, i])
-        pl3[0:10] = ack + fletcher(ack[2:])
+        pl3[0:10] = ack + bytes(fletcher(ack[2:]))
         if cnt_at is not None and cnt_at < 10:
             continue_ok = (name == 'UbxCfgGnss' and 4 + 8 * pl3[3] == L) or (name == 'UbxCfgEsfla' and 4 + 8 * pl3[1] == L)
             if continue_ok:
